@@ -426,8 +426,11 @@ def jobs(tier):
             add('kcenters_mpi_job', 'kcenters-mpi[%s,W=%d,k=%d]' % (list(lv), W, k), lengths=lv, W=W, k=k, mode='both')
         add('kcenters_mpi_job', 'kcenters-mpi[%s,W=%d,radius]' % (list(lv), W), lengths=lv, W=W, k=None, mode='r')
         add('convert_job', 'convert[%s,W=%d]' % (list(lv), W), lengths=lv, W=W)
-    for lv, W, k in (((2, 1), 2, 2), ((2, 2), 2, 2), ((1, 2, 1), 2, 2)) + (() if q else (((2, 1, 1), 3, 2), ((2, 2), 2, 3))):
+    # (3, 2) on two ranks: the smallest layout in which a rank can own NO frame of a cluster whose medoid moves
+    for lv, W, k in (((2, 1), 2, 2), ((2, 2), 2, 2), ((1, 2, 1), 2, 2), ((3, 2), 2, 2)) + (() if q else (((2, 1, 1), 3, 2), ((2, 2), 2, 3), ((2, 3), 2, 2), ((3, 1, 1), 3, 2))):
         add('hybrid_mpi_job', 'hybrid-mpi[%s,W=%d,k=%d]' % (list(lv), W, k), lengths=lv, W=W, k=k)
+        if sum(lv) >= 5 and q:
+            J[-1]['deadline_s'] = 900        # the one long job of the quick tier (2-5 minutes)
     for W, ll in ((1, (3,)), (2, (2, 1)), (2, (1, 3)), (3, (1, 2, 1)), (3, (2, 2, 2))):
         for what in ('max', 'mean', 'randind'):
             add('ops_job', 'ops.%s[W=%d,%s]' % (what, W, list(ll)), W=W, local_lens=ll, what=what)
